@@ -160,15 +160,114 @@ def correspondence(ctx):
                bad == 0, f"{bad}")
 
 
+def hess_blocks(fq, fp, q, p, h=1e-5):
+    """second-derivative blocks of a Hamiltonian from its gradient functions fq = dH/dq, fp = dH/dp (central differences):
+    S = H_qq, K = H_qp (K[i, j] = d(dH/dq_i)/dp_j), W = H_pp"""
+    d = q.size
+    S, K, W = np.zeros((d, d)), np.zeros((d, d)), np.zeros((d, d))
+    for j in range(d):
+        e = np.zeros(d)
+        e[j] = h
+        S[:, j] = (fq(q + e, p) - fq(q - e, p)) / (2 * h)
+        K[:, j] = (fq(q, p + e) - fq(q, p - e)) / (2 * h)
+        W[:, j] = (fp(q, p + e) - fp(q, p - e)) / (2 * h)
+    return S, K, W
+
+
+def linearised_relations(ctx):
+    """tie of Lib/Sympl3.v: finite-difference tangent vectors of the REAL implicit sub-steps satisfy the linearised relations SE, SEadj, MID
+    (with finite-difference Hessian blocks of the real Hamiltonian at the point the relation names)"""
+    from mici.errors import IntegratorError
+    from mici.states import ChainState
+    import mici
+    rng = ctx.rng
+    bad, n = 0, 0
+    systems, _ = zoo.make_systems("bare")
+    for name, s in systems.items():
+        if "riem" not in name:
+            continue
+        srng = np.random.default_rng(int(rng.integers(0, 2 ** 31)))
+        st0 = zoo.random_state(name, s, srng)
+        d = st0.pos.size
+        t = 0.04
+        ilf = mici.integrators.ImplicitLeapfrogIntegrator(s, 2 * t, fixed_point_solver_kwargs=dict(convergence_tol=1e-13))
+        imp = mici.integrators.ImplicitMidpointIntegrator(s, 2 * t, fixed_point_solver_kwargs=dict(convergence_tol=1e-13))
+
+        def mk(z):
+            return ChainState(pos=z[:d].copy(), mom=z[d:].copy(), dir=1)
+
+        def gq2(q, p):
+            return np.asarray(s.dh2_dpos(ChainState(pos=q.copy(), mom=p.copy(), dir=1)))
+
+        def gp2(q, p):
+            return np.asarray(s.dh2_dmom(ChainState(pos=q.copy(), mom=p.copy(), dir=1)))
+
+        def gq(q, p):
+            return np.asarray(s.dh_dpos(ChainState(pos=q.copy(), mom=p.copy(), dir=1)))
+
+        def gp(q, p):
+            return np.asarray(s.dh_dmom(ChainState(pos=q.copy(), mom=p.copy(), dir=1)))
+
+        def run(subs):
+            def f(z):
+                st = mk(z)
+                for m in subs:
+                    m(st, t)
+                return np.concatenate([st.pos, st.mom])
+            return f
+        z0 = np.concatenate([st0.pos, st0.mom])
+        cases = {"SE": (run([ilf._step_b_fwd, ilf._step_c_fwd]), gq2, gp2), "SEadj": (run([ilf._step_c_adj, ilf._step_b_adj]), gq2, gp2),
+                 "MID": (run([imp._step_a_fwd, imp._step_a_adj]), gq, gp)}
+        for rel, (f, fq, fp) in cases.items():
+            try:
+                z1 = f(z0)
+                Jm = fd_jacobian(f, z0, h=1e-6)
+            except IntegratorError:
+                continue
+            q, p, q1, p1 = z0[:d], z0[d:], z1[:d], z1[d:]
+            res = 0.0
+            if rel == "SE":
+                S, K, W = hess_blocks(fq, fp, q, p1)
+                for k in range(2 * d):
+                    dq, dp, dq1, dp1 = np.eye(2 * d)[:d, k], np.eye(2 * d)[d:, k], Jm[:d, k], Jm[d:, k]
+                    res = max(res, np.abs(dp - dp1 - t * (S @ dq + K @ dp1)).max(), np.abs(dq1 - dq - t * (K.T @ dq + W @ dp1)).max())
+            elif rel == "SEadj":
+                S, K, W = hess_blocks(fq, fp, q1, p)
+                for k in range(2 * d):
+                    dq, dp, dq1, dp1 = np.eye(2 * d)[:d, k], np.eye(2 * d)[d:, k], Jm[:d, k], Jm[d:, k]
+                    res = max(res, np.abs(dq - dq1 + t * (K.T @ dq1 + W @ dp)).max(), np.abs(dp1 - dp + t * (S @ dq1 + K @ dp)).max())
+            else:
+                fm = run([imp._step_a_fwd])
+                zm = fm(z0)
+                Jmid = fd_jacobian(fm, z0, h=1e-6)
+                S, K, W = hess_blocks(fq, fp, zm[:d], zm[d:])
+                X = np.block([[K.T, W], [-S, -K]])
+                for k in range(2 * d):
+                    dm = Jmid[:, k]
+                    res = max(res, np.abs(np.eye(2 * d)[:, k] - (dm - t * X @ dm)).max(), np.abs(Jm[:, k] - (dm + t * X @ dm)).max())
+            n += 1
+            ctx.case(("linrel", name, rel))
+            ctx.count(f"corr:linearised:{rel}")
+            if not res <= 5e-5:
+                bad += 1
+                ctx.fail(f"corr:linearised:{rel}", f"finite-difference tangent vectors of the real {rel} sub-steps on {name} violate the linearised relation of Lib/Sympl3.v by {res:.2e}",
+                         {"system": name, "relation": rel, "residual": float(res), "pos": st0.pos.tolist(), "mom": st0.mom.tolist()}, kind="corr")
+    ctx.oblige(f"correspondence: {n} (system, sub-step pair) cases - finite-difference tangent vectors of the real implicit sub-steps (generalised leapfrog momentum-first / "
+               f"position-first pairs, implicit midpoint) satisfy the linearised relations SE, SEadj, MID with finite-difference Hessian blocks", bad == 0 and n > 0, f"{bad} of {n}")
+
+
 def run(ctx):
     ctx.rule = "per (integrator, system, step count): finite-difference Jacobian residual; constrained: per (system, inner step count) on a basis of the bundle's tangent space"
-    ctx.assume("the Jacobian of a composition is the product of the sub-step Jacobians (chain rule); Hessians / inverse metrics are symmetric",
-               "implicit integrators (generalised leapfrog, implicit midpoint) and the constrained integrator on non-linear manifolds: symplecticity is explored by the search, "
-               "not proved (the implicit-differentiation form of their sub-step Jacobians is not formalised) - partial")
+    ctx.assume("the Jacobian of a composition is the product of the sub-step Jacobians (chain rule); second-derivative blocks H_qq, H_pp, multiplier-weighted constraint Hessians "
+               "and inverse metrics are symmetric (Schwarz)",
+               "implicit and constrained sub-steps: the tangent map of a sub-step defined by an implicit equation satisfies the linearised equation (implicit differentiation); the "
+               "relations SE, SEadj, MID are checked against finite differences of the real sub-steps by the correspondence, the constrained relations CA / CB (Lagrange multipliers "
+               "differentiated through J(q)^T lam) only through the conclusion, by the bundle-restricted finite-difference search")
     ctx.trust("translator T3 for the schedules; Lib/Sympl2.v block action")
     ok = ctx.regen("SchedulesGen", translate_integrators.generate)
     model_ok = ok and ctx.build(["Gen/SchedulesGen.vo", "Model/Matrices.vo"], label="executable model")
     if model_ok and ctx.build(["Props/C03.vo"]):
         ctx.props()
         correspondence(ctx)
+    linearised_relations(ctx)
     search(ctx)
